@@ -14,6 +14,7 @@ import traceback
 VERIF = os.path.dirname(os.path.dirname(os.path.abspath(__file__)))
 VENV_PY = '/venv/bin/python'
 REPO = os.environ.get('FLOWCAL_REPO', '/repo')
+OUT = os.environ.get('PYVC_OUT', None)      # evidence/ and replays/ of trial runs (seeded changes in a scratch worktree) go here
 
 EXIT_OK, EXIT_VIOLATION, EXIT_UNDECIDED, EXIT_BROKEN = 0, 1, 2, 3
 JOB_BUDGET_S = int(os.environ.get('PYVC_JOB_BUDGET_S', '420'))
@@ -90,6 +91,83 @@ def _job(args):
                 'sha256': None, 'assumptions': []}
 
 
+def _child(fn, job, conn):
+    try:
+        conn.send(fn(job))
+    except Exception as e:   # noqa
+        try:
+            conn.send({'__crash__': '%s: %s' % (type(e).__name__, e)})
+        except Exception:
+            pass
+    finally:
+        conn.close()
+
+
+def run_jobs(fn, jobs, procs, hard_s, on_timeout):
+    """One process per job, at most `procs` at a time, each with a HARD wall-clock limit: a solver call that ignores its own
+    timeout (seen: z3's Diophantine handler inside a 20 s query ran for 45 minutes) cannot be interrupted from Python, so the
+    process is killed and the job is reported as undecided."""
+    ctx = multiprocessing.get_context('fork')
+    results = [None] * len(jobs)
+    running = {}
+    nxt = 0
+    while nxt < len(jobs) or running:
+        while nxt < len(jobs) and len(running) < procs:
+            parent, child = ctx.Pipe(duplex=False)
+            pr = ctx.Process(target=_child, args=(fn, jobs[nxt], child))
+            pr.start()
+            child.close()
+            running[nxt] = (pr, parent, time.time())
+            nxt += 1
+        for i, (pr, conn, t0) in list(running.items()):
+            done = False
+            try:
+                if conn.poll():
+                    r = conn.recv()
+                    results[i] = on_timeout(jobs[i], 'worker crashed: ' + r['__crash__']) if isinstance(r, dict) and '__crash__' in r else r
+                    done = True
+            except (EOFError, OSError):
+                results[i] = on_timeout(jobs[i], 'worker ended without a result')
+                done = True
+            if not done and not pr.is_alive():
+                # the result may still be in the pipe
+                try:
+                    if conn.poll(0.2):
+                        results[i] = conn.recv()
+                    else:
+                        results[i] = on_timeout(jobs[i], 'worker died (exit code %s)' % pr.exitcode)
+                except Exception:
+                    results[i] = on_timeout(jobs[i], 'worker died (exit code %s)' % pr.exitcode)
+                done = True
+            if not done and time.time() - t0 > hard_s:
+                pr.kill()
+                results[i] = on_timeout(jobs[i], 'hard time limit of %d s exceeded (a solver call did not return): killed' % hard_s)
+                done = True
+            if done:
+                pr.join(5)
+                try:
+                    conn.close()
+                except Exception:
+                    pass
+                del running[i]
+        time.sleep(0.05)
+    return results
+
+
+def _proof_timeout(job, why):
+    ref, label = job[0], job[1]
+    try:
+        target = load_contract(ref).target
+    except Exception:
+        target = ref
+    return {'ref': ref, 'target': target, 'label': label, 'results': [], 'paths': 0, 'cases': [], 'unsupported': ['%s: %s' % (label, why)],
+            'errors': [], 'covers': {}, 'axioms': [], 'branch_queries': 0, 'solver_s': 0, 'wall_s': 0, 'sha256': None, 'assumptions': []}
+
+
+def _mutant_timeout(job, why):
+    return {'ref': job[0], 'site': job[1], 'mutation': None, 'verdict': 'not-decisive', 'how': why, 'wall_s': 0}
+
+
 def _mutant_job(args):
     """one deliberately broken body of the function under contract (in memory): is it noticed?"""
     ref, site, facts, timeout_ms = args
@@ -158,9 +236,7 @@ def run_mutants(contract_refs, facts, timeout_ms, procs, seed, per_contract=3):
         return []
     if len(jobs) > MAX_MUTANTS:
         jobs = sorted(_random.Random('%s/cap' % seed).sample(jobs, MAX_MUTANTS), key=lambda j: (j[0], j[1]))
-    ctx = multiprocessing.get_context('fork')
-    with ctx.Pool(min(procs, len(jobs))) as pool:
-        return pool.map(_mutant_job, jobs, chunksize=1)
+    return run_jobs(_mutant_job, jobs, min(procs, len(jobs)), MUTANT_BUDGET_S + 90, _mutant_timeout)
 
 
 def run_proof_jobs(contract_refs, facts, timeout_ms, procs):
@@ -171,10 +247,7 @@ def run_proof_jobs(contract_refs, facts, timeout_ms, procs):
             jobs.append((ref, case.get('label', 'case%d' % ci), facts, timeout_ms, None))
     if not jobs:
         return []
-    ctx = multiprocessing.get_context('fork')
-    with ctx.Pool(min(procs, len(jobs))) as pool:
-        out = pool.map(_job, jobs, chunksize=1)
-    return out
+    return run_jobs(_job, jobs, min(procs, len(jobs)), JOB_BUDGET_S + 120, _proof_timeout)
 
 
 def run_replay(replay_path):
@@ -199,10 +272,10 @@ def crosscheck(pid, reports):
     out['models_found'] = len(items)
     if not items:
         return out
-    os.makedirs(os.path.join(VERIF, 'replays', pid), exist_ok=True)
+    os.makedirs(os.path.join(OUT or VERIF, 'replays', pid), exist_ok=True)
     paths = []
     for n, (rep, x) in enumerate(items):
-        rp_path = os.path.join(VERIF, 'replays', pid, 'cross_%03d.json' % n)
+        rp_path = os.path.join(OUT or VERIF, 'replays', pid, 'cross_%03d.json' % n)
         with open(rp_path, 'w') as f:
             json.dump({'property': pid, 'target': rep['target'], 'inputs': x['witness'], 'case': x['case'], 'path': x['path'],
                        'engine_outcome': x['outcome'], 'purpose': 'engine-vs-CPython cross-check'}, f, indent=1, default=str)
@@ -305,7 +378,7 @@ def check_property(pid, spec, tier='quick', seed=0, procs=None, write_baseline=F
     discharged_keys = []
     covers_reached = []
     solver_s = 0.0
-    os.makedirs(os.path.join(VERIF, 'replays', pid), exist_ok=True)
+    os.makedirs(os.path.join(OUT or VERIF, 'replays', pid), exist_ok=True)
     pending = []
     for rep in reports:
         if rep['errors']:
@@ -352,7 +425,7 @@ def check_property(pid, spec, tier='quick', seed=0, procs=None, write_baseline=F
             if r['status'] == 'unknown':
                 undecided.append({'key': key, 'why': 'solver unknown: %s' % r['reason']})
                 continue
-            with open(os.path.join(VERIF, rp_path), 'w') as f:
+            with open(os.path.join(OUT or VERIF, rp_path), 'w') as f:
                 json.dump(rp, f, indent=1, default=str)
             runnable = bool(r['witness'] and not (isinstance(r['witness'], dict) and r['witness'].get('error')) and
                             not (isinstance(r['witness'], dict) and r['witness'].get('data', 1) is None))
@@ -361,11 +434,11 @@ def check_property(pid, spec, tier='quick', seed=0, procs=None, write_baseline=F
     from concurrent.futures import ThreadPoolExecutor
     todo = [x for x in pending if x[5]]
     with ThreadPoolExecutor(max_workers=12) as ex:
-        verdicts = dict(zip([x[0] + x[1] for x in todo], ex.map(lambda x: run_replay(os.path.join(VERIF, x[1])), todo)))
+        verdicts = dict(zip([x[0] + x[1] for x in todo], ex.map(lambda x: run_replay(os.path.join(OUT or VERIF, x[1])), todo)))
     for (key, rp_path, rp, r, rep, runnable) in pending:
         verdict = verdicts.get(key + rp_path, {'violates': None, 'detail': 'no concrete inputs could be built from the counter-model'})
         rp['replay_verdict'] = verdict
-        with open(os.path.join(VERIF, rp_path), 'w') as f:
+        with open(os.path.join(OUT or VERIF, rp_path), 'w') as f:
             json.dump(rp, f, indent=1, default=str)
         item = {'key': key, 'replay': rp_path, 'verdict': verdict, 'obligation': r['name'], 'target': rep['target']}
         kf = match_known(pid, key, known)
@@ -422,7 +495,7 @@ def check_property(pid, spec, tier='quick', seed=0, procs=None, write_baseline=F
             for fl in bounded_res.get('failures', []):
                 key = 'bounded::' + fl['key']
                 rp_path = os.path.join('replays', pid, 'bounded_' + hashlib.sha1(key.encode()).hexdigest()[:12] + '.json')
-                with open(os.path.join(VERIF, rp_path), 'w') as f:
+                with open(os.path.join(OUT or VERIF, rp_path), 'w') as f:
                     json.dump({'property': pid, 'key': key, 'target': fl.get('target'), 'inputs': fl.get('inputs'), 'found_by': 'bounded stand-in', 'what': fl.get('what')}, f, indent=1, default=str)
                 kf = match_known(pid, key, known)
                 item = {'key': key, 'replay': rp_path, 'verdict': {'violates': True, 'detail': fl.get('what', '')}}
@@ -492,8 +565,8 @@ def check_property(pid, spec, tier='quick', seed=0, procs=None, write_baseline=F
         ev['coverage']['evaluations'] = int(bounded_summary.get('cases') or 0)
         ev['coverage']['distinct_nontrivial'] = int(bounded_summary.get('distinct_nontrivial') or 0)
         ev['coverage']['rule'] = bounded_summary.get('rule') or ''
-    os.makedirs(os.path.join(VERIF, 'evidence'), exist_ok=True)
-    with open(os.path.join(VERIF, 'evidence', pid + '.json'), 'w') as f:
+    os.makedirs(os.path.join(OUT or VERIF, 'evidence'), exist_ok=True)
+    with open(os.path.join(OUT or VERIF, 'evidence', pid + '.json'), 'w') as f:
         json.dump(ev, f, indent=1, default=str)
     for l in out_lines:
         print(l)
